@@ -6,7 +6,9 @@ import (
 	"path/filepath"
 
 	hg "github.com/mosaicnetworks/babble/src/hashgraph"
+	"strings"
 	"verif/harness/dag"
+
 	"verif/harness/mon"
 	"verif/harness/sched"
 )
@@ -384,6 +386,32 @@ func init() {
 				}
 			}
 			fmt.Printf("%s: %d events, %d blocks:%s\n", name, len(evs), len(ref.BlockD), res)
+		}
+		return 0
+	}
+}
+
+func init() {
+	// dbgsearch <monitors,comma> <scenario-pattern with %d> <from> <to>: run the seed of each scenario with the monitors, print those with violations
+	checks["dbgsearch"] = func(args []string) int {
+		mons := strings.Split(args[0], ",")
+		from, to := atoi(args[2]), atoi(args[3])
+		for k := from; k < to; k++ {
+			name := fmt.Sprintf(args[1], k)
+			sc := sched.ScenarioByName(name)
+			st := &mon.Stats{}
+			x := sched.NewExec(sc, sched.MonitorFactory(mons, st))
+			x.NoDigest = true
+			for _, a := range sc.Seed {
+				x.Step(a)
+				if x.Dead() || len(x.Viol) > 0 {
+					break
+				}
+			}
+			if len(x.Viol) > 0 {
+				fmt.Printf("%s: %s %s: %.200s\n", name, x.Viol[0].Property, x.Viol[0].Key, x.Viol[0].What)
+			}
+			x.Close()
 		}
 		return 0
 	}
